@@ -207,6 +207,14 @@ Definition hdr_of (flags : N) (before : list hmsg) (dims maxd : list N) (after :
   {| oh_version := 2; oh_flags := flags; oh_refcount := 1; oh_msgs := before ++ ds_msg dims maxd :: after |}.
 Definition no_ds (ms : list hmsg) : bool := forallb (fun m => negb (hm_type m =? MSG_DATASPACE)) ms.
 
+(* what follows the header in the file: the reader fetches 6 bytes for every message header, and a message with
+   one byte of data is 5 bytes long - so either the last message has two bytes of data or the file goes on *)
+Fixpoint room (ms : list hmsg) (suf : bytes) : bool :=
+  match ms with
+  | [] => true
+  | m :: r => match r with [] => 2 <=? blen (hm_data m) + blen suf | _ => room r suf end
+  end.
+
 (* the bytes of the header image in front of / behind the extents of the dataspace message; they depend on the
    rank only, not on the extents *)
 Definition frame_front (flags : N) (before : list hmsg) (rank : N) (maxd : list N) (after : list hmsg) : bytes :=
